@@ -589,6 +589,14 @@ def run_mf(spec):
                     count("resume-of-failed-trial")
                     failed.discard(tid)
             ev.update(_mf_run_info(spec, sch, tid))
+            if kind == "syncgp" and spec["ctor"]["cls"] == "hyperband":
+                # synchronous Hyperband: the resume level of a run is known from the history alone - 0 for a new trial,
+                # the rung level the trial was paused at for a resumed one (not the scheduler's level_to_prev_level)
+                # (a failed trial which the bracket resumes anyway - known finding c05:failed-trial-promoted - has no such level)
+                if ev["ev"] == "start":
+                    ev["f"] = 0
+                elif not ev.get("was_failed") and tid in paused_at:
+                    ev["f"] = int(paused_at[tid])
             if sg.config is not None and MF_MAXATTR in sg.config and spec["ctor"]["max_resource_attr"]:
                 ev["cfg_milestone"] = int(sg.config[MF_MAXATTR])
             ev["state"] = _mf_state(gp)
